@@ -3,8 +3,8 @@ import PycModel.Proofs.Pres
 # Every production respects every `PrimOK` relation
 
 The walk over the productions is done by one tactic, `pres`, which peels binds, branches and
-matches and closes the leaves with the primitive lemmas or the induction hypothesis `hs`
-(every call through `self` respects `R`).
+matches and closes the leaves with the primitive lemmas or the hypothesis `hs` (every call
+through `self` respects `R`).
 -/
 namespace PycModel
 
@@ -14,31 +14,46 @@ theorem Pres.ite {α} {c : Prop} [Decidable c] {t e : P α} (ht : Pres R t) (he 
     Pres R (if c then t else e) := by
   split <;> assumption
 
-theorem Pres.accept (h : PrimOK R) (k : String) : Pres R (accept k) := by
-  unfold accept advance peek
-  intro s a s' e
-  simp only [bind, Bind.bind] at e
-  split at e
-  · rename_i t s1 h1
-    have r1 := h.peekK 1 s t s1 h1
-    cases t with
-    | none => simp [pure, Pure.pure] at e; cases e.2; exact r1
-    | some tk =>
-      simp only at e
-      split at e
-      · split at e
-        · rename_i t2 s2 h2
-          have r2 := h.nextTok s1 t2 s2 h2
-          cases t2 with
-          | none =>
-            simp only [parseError, P.fail] at e
-            split at e <;> cases e
-          | some tk2 =>
-            simp [pure, Pure.pure] at e
-            cases e.2
-            exact h.trans _ _ _ r1 r2
-        · cases e
-      · simp [pure, Pure.pure] at e; cases e.2; exact r1
-  · cases e
+/-- one step of the walk -/
+macro "pres_step" : tactic => `(tactic| first
+  | assumption
+  | exact Pres.pure ‹PrimOK _› _
+  | exact Pres.parseError _ _
+  | exact Pres.crash _ _
+  | exact Pres.fail _
+  | exact PrimOK.peekK ‹PrimOK _› _
+  | exact PrimOK.nextTok ‹PrimOK _›
+  | exact PrimOK.reset ‹PrimOK _› _
+  | exact PrimOK.addTypedefName ‹PrimOK _› _ _
+  | exact PrimOK.addIdentifier ‹PrimOK _› _ _
+  | exact Pres.readOnly ‹PrimOK _› ReadOnly.getState
+  | exact Pres.readOnly ‹PrimOK _› ReadOnly.mark
+  | exact Pres.readOnly ‹PrimOK _› (ReadOnly.isTypeInScope _)
+  | exact Pres.readOnly ‹PrimOK _› ReadOnly.lexFileLoc
+  | exact Pres.readOnly ‹PrimOK _› (ReadOnly.tokCoord _)
+  | exact Pres.readOnly ‹PrimOK _› (ReadOnly.attrOrCrash _ _)
+  | refine Pres.bind ‹PrimOK _› ?_ ?_
+  | (intro _)
+  | split
+  | (dsimp only))
+
+macro "pres" : tactic => `(tactic| repeat pres_step)
+
+theorem Pres.peek (h : PrimOK R) : Pres R peek := h.peekK 1
+
+theorem Pres.peekType (h : PrimOK R) : Pres R peekType := by
+  unfold PycModel.peekType; have := Pres.peek h; pres
+
+theorem Pres.peekType2 (h : PrimOK R) : Pres R peekType2 := by
+  unfold PycModel.peekType2; pres
+
+theorem Pres.advance (h : PrimOK R) : Pres R advance := by
+  unfold PycModel.advance; pres
+
+theorem Pres.accept (h : PrimOK R) (k : String) : Pres R (PycModel.accept k) := by
+  unfold PycModel.accept; have := Pres.peek h; have := Pres.advance h; pres
+
+theorem Pres.expect (h : PrimOK R) (k : String) : Pres R (PycModel.expect k) := by
+  unfold PycModel.expect; have := Pres.advance h; pres
 
 end PycModel
